@@ -47,9 +47,11 @@ ENUM_KINDS = [
 
 def gen_plan(base_seed, i, tier):
     rng = common.rng_for(base_seed, "C11", i)
-    n_mcs = rng.randint(1, 4)
-    rows = common.pick_rows(rng, n_mcs, {"mcs-based": 10})
+    n_mcs = rng.randint(1, 4) if rng.random() < 0.85 else rng.randint(5, 8)
+    rows = common.pick_rows(rng, n_mcs, {"mcs-based": 10, "no-mcs": 1})
     rows += common.pick_rows(rng, rng.randint(0, 3), {"rule-based": 2, "input-balanced": 1, "declined": 2, "redox": 1})
+    if rng.random() < 0.3:  # the same reaction twice: each copy is its own row with its own jobs
+        rows.append(rows[0])
     rng.shuffle(rows)
     cfg = common.gen_config(rng, len(rows), thresholds=(0, 0, 0.5))
     sim = common.gen_sim(rng, faults=True)
@@ -72,7 +74,31 @@ def extra_plans(tier, base_seed):
     return plans
 
 
-def judge(rows_in, res, twin, threshold, where=""):
+def row_hits(n, res, bs):
+    """Indices of the result rows whose own jobs were faulted. Row-level attribution needs the batch
+    counter to agree with the batching we asked for; otherwise fall back to reaction-level attribution."""
+    ar = res.get("affected_rows") or []
+    if not ar:
+        return set()
+    size = n if not bs else max(int(bs), 1)
+    expected = (n + size - 1) // size
+    hits = set()
+    if res.get("batches_seen") == expected:
+        for b, rid, rxn in ar:
+            try:
+                i = (int(b) - 1) * size + int(rid)
+            except (TypeError, ValueError):
+                i = -1
+            if 0 <= i < n:
+                hits.add(i)
+            else:
+                res.setdefault("affected", []).append(rxn)
+    else:
+        res["affected"] = list(res.get("affected") or []) + [x[2] for x in ar]
+    return hits
+
+
+def judge(rows_in, res, twin, threshold, where="", bs=None):
     """Containment oracle for one faulty run against its fault-free twin."""
     from simworld import oracles
 
@@ -86,9 +112,10 @@ def judge(rows_in, res, twin, threshold, where=""):
     if len(rows) != len(rows_in):
         vs.append(oracles.V("C11", "rows_lost", "count", "%s%d rows for %d inputs under faults %s (twin returned all)" % (where, len(rows), len(rows_in), res["fired"])))
         return vs, True
+    hit_rows = row_hits(len(rows_in), res, bs)
     affected = set(res["affected"])
-    for inp, row, trow in zip(rows_in, rows, trows):
-        hit = res["affected_all"] or (row["input_reaction"] in affected) or (trow["input_reaction"] in affected)
+    for i, (inp, row, trow) in enumerate(zip(rows_in, rows, trows)):
+        hit = res["affected_all"] or (row["input_reaction"] in affected) or (trow["input_reaction"] in affected) or i in hit_rows
         if not hit:
             diff = oracles.rows_equal(row, trow)
             if diff:
@@ -122,7 +149,7 @@ def _reach_probes(res):
         if not isinstance(t, dict) or row["solved_by"] in ("input-balanced", "rule-based"):
             continue
         mcs = t.get("mcs")
-        hit = res.get("affected_all") or row["input_reaction"] in set(res.get("affected") or [])
+        hit = res.get("affected_all") or row["input_reaction"] in set(res.get("affected") or []) or row["input_reaction"] in {x[2] for x in (res.get("affected_rows") or [])}
         if mcs is None and hit:
             pr["all_conditions_failed"] = pr.get("all_conditions_failed", 0) + 1
         if isinstance(mcs, dict):
@@ -157,7 +184,17 @@ def execute(plan):
         out["runs"] += 1
         _reach_probes(res)
         out["summary"].append(common.run_summary(res))
-        vs, _ = judge(rows_in, res, twin, thr)
+        vs, _ = judge(rows_in, res, twin, thr, bs=plan["config"].get("batch_size"))
+        if res["fired"] and twin["rows"] is not None:
+            # faults have stopped: the same run again, in the same process, must be the fault-free run again
+            after = runner.run_once({"rows": rows_in, "config": plan["config"], "sim": _nofault(plan["sim"])})
+            out["runs"] += 1
+            out["summary"].append(common.run_summary(after))
+            if after["rows"] != twin["rows"] or after["stats"] != twin["stats"]:
+                k = next((i for i, (a, b) in enumerate(zip(after["rows"] or [], twin["rows"])) if a != b), 0)
+                from simworld import oracles
+                vs.append(oracles.V("C11", "fault_outlives_run", "after", "fault-free run after the faulty one differs from the fault-free run before it at row %d (%s): %r vs %r" % (
+                    k, rows_in[k] if k < len(rows_in) else None, (after["rows"] or [None] * (k + 1))[k] if after["rows"] is not None and k < len(after["rows"]) else after["exc"], twin["rows"][k] if k < len(twin["rows"]) else None)))
         out["violations"] = vs
         out["fired_list"] = res["fired_list"]
         inside = sum(v for k, v in res["fired"].items() if k.split(".")[0] in ("mcs_job", "frag_job", "fmcs", "fmces"))
@@ -186,7 +223,7 @@ def execute(plan):
         res = runner.run_once({"rows": rows_in, "config": plan["config"], "sim": sim})
         out["runs"] += 1
         out["summary"].append(common.run_summary(res))
-        v, _ = judge(rows_in, res, twin, thr, where="[subset %d/%d of %s %s] " % (mask, total, site, fault["kind"]))
+        v, _ = judge(rows_in, res, twin, thr, where="[subset %d/%d of %s %s] " % (mask, total, site, fault["kind"]), bs=plan["config"].get("batch_size"))
         for x in v:
             x["subplan"] = {"property": "C11", "kind": "faulty", "rows": rows_in, "config": plan["config"], "sim": sim}
         vs += v
